@@ -20,10 +20,10 @@ var pureIntrinsics = map[string]bool{
 	"vfSymbolic": true, "vfTol": true, "vfIff": true,
 }
 
-var intrinsics map[string]externalFn
+var intrinsics = map[string]externalFn{}
 
 func init() {
-	intrinsics = map[string]externalFn{
+	for k, v := range map[string]externalFn{
 		"vfReal":        vfReal,
 		"vfRealN":       vfRealN,
 		"vfInt":         vfInt,
@@ -61,6 +61,8 @@ func init() {
 		},
 		"vfTier":        func(fr *frame, args []value) value { return fr.i.ex.Tier },
 		"vfSeed":        func(fr *frame, args []value) value { return fr.i.ex.Seed },
+	} {
+		intrinsics[k] = v
 	}
 }
 
